@@ -305,10 +305,6 @@ func sceneBounds(ts []*model3d.Triangle) (C3, C3) {
 // ---------------------------------------------------------------------------
 // queries
 
-type query3 struct {
-	exact bool
-}
-
 // exactPoint: half-integer point in and around the grid.
 func exactPoint(rng *rand.Rand, g int) C3 {
 	f := func() float64 { return float64(rng.Intn(2*g+9)-4) * 0.5 }
@@ -500,9 +496,7 @@ func genSegment3(rng *rand.Rand, s *scene3) (model3d.Segment, bool, string) {
 	if seg[0] == seg[1] {
 		seg[1] = seg[0].Add(exactDir(rng))
 	}
-	d := seg[1].Sub(seg[0])
 	ex := exactDiff(seg[1].X, seg[0].X) && exactDiff(seg[1].Y, seg[0].Y) && exactDiff(seg[1].Z, seg[0].Z)
-	_ = d
 	return seg, ex, kind
 }
 
